@@ -46,10 +46,10 @@ def generate_all(ctx, jobs, spec):
                     " (counterexample, as expected)" if mode == "mc_expect" and r.violation else ""))
 
     threads = [threading.Thread(target=one, args=j) for j in jobs]
-    for i in range(0, len(threads), 4):
-        for t in threads[i:i + 4]:
+    for i in range(0, len(threads), 5):
+        for t in threads[i:i + 5]:
             t.start()
-        for t in threads[i:i + 4]:
+        for t in threads[i:i + 5]:
             t.join()
     if errors:
         raise vlib.Inconclusive("\n".join(errors))
